@@ -47,3 +47,41 @@ Proof.
   intros Ha Hb Hw. destruct (sys_whole_run_theorems sc w Ha Hb Hw) as (_ & [L A] & [_ _ U Al]).
   split; [split; assumption|]. intros id Hid. split; [intros a k; apply U, Hid|apply Al, Hid].
 Qed.
+
+(* ------------------------------------------------------------------ the time-dependent invariants, while every settle completes *)
+From PS Require Import Proofs.WorldTime Proofs.WorldDeadline Proofs.WorldLogTime Proofs.WorldExpiry Proofs.SystemInvT.
+
+Definition TIMED (w : world) : Prop := GGT [] w /\ GGR [] w.
+
+Lemma TIMED_iteration arrivals rv w : all_notexp arrivals -> TIMED w -> TIMED (iteration arrivals rv w).
+Proof. intros Ha [T R]. split; [apply GGT_iteration|apply GGR_iteration]; assumption. Qed.
+Lemma rdy_nil w : ready w = [] -> rdy w = [].
+Proof. intros H. unfold rdy. rewrite H. reflexivity. Qed.
+Lemma TIMED_set_now t w : TIMED w -> ready w = [] -> now w <= t ->
+  (forall tm, In tm (timers w) -> memN (snd (fst tm)) (cancelled w) = false -> t <= fst (fst tm)) -> TIMED (set_now t w).
+Proof.
+  intros [([[A [B C]] D] & J & L & T) ([A' [B' C']] & L' & R)] Hr Hn Ht.
+  assert (Hl : Tlate (set_now t w)) by (intros tm Hin Hc; cbn [now set_now]; apply Ht; assumption).
+  split.
+  - split; [split; [split; [apply GP_set_now; exact A|split; [exact B|exact C]]|apply K_set_now; exact D]|].
+    split; [apply Jc_set_now; assumption|]. split; [exact Hl|apply T_set_now; [apply rdy_nil, Hr|exact T]].
+  - split; [split; [apply GP_set_now; exact A'|split; [exact B'|exact C']]|]. split; [exact Hl|apply R_set_now; [apply rdy_nil, Hr|exact R]].
+Qed.
+Lemma TIMED_fresh t nd : fresh_insts (nd_insts nd) -> TIMED (fresh_world t nd).
+Proof.
+  intros Hf. unfold fresh_world. split.
+  - split; [split; [apply GG_empty; exact Hf|apply K_empty]|]. split; [intros x []|]. split; [intros x []|apply T_empty].
+  - split; [apply GG_empty; exact Hf|]. split; [intros x []|apply R_empty'; exact Hf].
+Qed.
+
+(* C15 in time and C09 on time for both stacks of the composition, in every state of every run whose iteration budgets
+   sufficed (sy_ok); every stack is then quiet between the instants and its clock is the composition's *)
+Theorem sys_timed sc w : fresh_insts (nd_insts (ss_a sc)) -> fresh_insts (nd_insts (ss_b sc)) ->
+  sy_ok (fst (sys_run_scenario sc)) = true ->
+  (sy_a (fst (sys_run_scenario sc)) = Some w \/ sy_b (fst (sys_run_scenario sc)) = Some w) ->
+  GGT [] w /\ GGR [] w /\ ready w = [] /\ now w = sy_now (fst (sys_run_scenario sc)).
+Proof.
+  intros Ha Hb Hok Hw.
+  destruct (sys_reachable_T TIMED TIMED_iteration TIMED_set_now TIMED_fresh sc Ha Hb Hok) as [Ia Ib].
+  destruct Hw as [Hw|Hw]; [destruct (Ia w Hw) as ([T R] & Hr & _ & Hn)|destruct (Ib w Hw) as ([T R] & Hr & _ & Hn)]; (split; [exact T|split; [exact R|split; [exact Hr|exact Hn]]]).
+Qed.
